@@ -250,6 +250,23 @@ func (V *Verifier) verifyFunctions(fns []*ssa.Function, lemmas []*Lemma, opt sol
 	// (contradictory requires / invariants / extern contracts) proves nothing. A single
 	// unreachable return is usually defensive code that the contracts make dead; those are
 	// listed in the evidence, not reported.
+	succ := map[string][2]int{}
+	for _, c := range res.Covers {
+		if c.Success {
+			r := succ[c.Func]
+			if c.Result == "unsat" {
+				r[1]++
+			} else {
+				r[0]++
+			}
+			succ[c.Func] = r
+		}
+	}
+	for fn, r := range succ {
+		if r[0] == 0 && r[1] > 0 {
+			res.Structure = append(res.Structure, fmt.Sprintf("vacuity:%s: no success return (nil error) is reachable under the assumed contracts", fn))
+		}
+	}
 	reach := map[string][2]int{}
 	for _, c := range res.Covers {
 		r := reach[c.Func]
